@@ -105,9 +105,25 @@ def analysis_models(pid, tier):
     return stats
 
 
+def hexital_models(pid, tier):
+    """MC_Hexital: a member's timeframe manager (built from copies of the default candles, at
+    construction or by add_indicator later, then fed alongside) equals the standalone manager"""
+    q = tier == "quick"
+    consts = ("TF=3, member timeframe in {3,6}, Hexital timeframe in {none,3}, fill, Heikin-Ashi, lifespan in "
+              "{none,8}; streams <= %d over gaps {0,1,2,4,7}, chunks <= %d, 0..2 candles at construction, "
+              "member present from the start or added later" % ((4, 2) if q else (5, 3)))
+    return [mc.run_model("MC_Hexital", "MC_Hexital", "MC_Hexital_quick.cfg" if q else "MC_Hexital.cfg", consts, timeout=3400),
+            mc.run_model("MC_Hexital K01 class (must fail)", "MC_Hexital", "MC_Hexital_K01.cfg",
+                         "quick constants; the invariant without the lifespan exclusion", expect_violation="K01_Holds"),
+            mc.run_model("MC_Hexital K02 class (must fail)", "MC_Hexital", "MC_Hexital_K02.cfg",
+                         "quick constants; the invariant without the fill exclusion", expect_violation="K02_Holds")]
+
+
 def run(pid, tier, seed, rng, t0):
     scs = families.scenarios(pid, tier, rng)
     mc_stats, extra, rc_replay = [], {}, 0
+    if pid == "C08":
+        mc_stats = hexital_models(pid, tier)
     if pid in ("C16", "C17"):
         mc_stats = analysis_models(pid, tier)
     if pid in IND_PROPS:
